@@ -438,3 +438,136 @@ Theorem completion_plain_case t stem p idx enc pi q up ch :
 Proof.
   intros Hf Hc Hp He Hq. unfold completion. rewrite Hf, Hc, Hp. cbn [negb]. rewrite He, Hq. reflexivity.
 Qed.
+
+(* ====================================================================================== *)
+(* the other branches of get_definition                                                   *)
+(* ====================================================================================== *)
+
+(* generate_loc_link_all, written out *)
+Lemma def_all_eq t stem ch oid :
+  def_all t stem ch oid =
+  match oid with
+  | None => Ans []
+  | Some id =>
+      if foreign_parent t then Outside
+      else if forallb (fun h => indexed1 stem (cls_str (fst h))) (lookup_all ch id)
+           then Ans (map (fun h => (a_sel (snd h), a_range (snd h))) (lookup_all ch id))
+           else Ans []
+  end.
+Proof. reflexivity. Qed.
+
+(* `self.<name>` / `<own class or module>.<name>` inside a method: every declaration of the name
+   along the class-level chain (generate_right_hand_of_entity -> class_level_table -> generate_loc_link_all) *)
+Theorem definition_self_member_case t stem p i enc pi q up ch lft ent :
+  flat_methods t = true -> chain_for t (descend p t) = Some ch ->
+  path_up p t = (S i, enc) :: (pi, q) :: up -> is_dot q = true ->
+  first_child q = Some lft -> own_entity t lft = Some ent -> in_method (descend p t) = true ->
+  indexed1 stem ent = true ->
+  definition t stem p =
+  match get_id enc p with
+  | None => Ans []
+  | Some id =>
+      if foreign_parent t then Outside
+      else if forallb (fun h => indexed1 stem (cls_str (fst h))) (lookup_all (class_level_t ch) id)
+           then Ans (map (fun h => (a_sel (snd h), a_range (snd h))) (lookup_all (class_level_t ch) id))
+           else Ans []
+  end.
+Proof.
+  intros Hf Hc Hp Hd Hl Ho Hm Hi. unfold definition. rewrite Hf, Hc, Hp. cbn [negb]. rewrite Hd, Hl, Ho, Hm, Hi. apply def_all_eq.
+Qed.
+
+(* the declared name of a method (the encasing node is the name node = first child of the
+   procedure / function): class-level chain; of a field / constant / type (the encasing node is the
+   declaration, the cursor inside its name token by get_id): the nearest table's chain *)
+Theorem definition_declared_name_case t stem p idx enc pi q up ch :
+  flat_methods t = true -> chain_for t (descend p t) = Some ch ->
+  path_up p t = (idx, enc) :: (pi, q) :: up -> is_dot q = false ->
+  (is_method_node q = true -> idx = O ->
+     definition t stem p = def_all t stem (class_level_t ch) (get_id enc p)) /\
+  ((is_method_node q && Nat.eqb idx 0) = false -> is_member_decl enc = true ->
+     definition t stem p = def_all t stem ch (get_id enc p)).
+Proof.
+  intros Hf Hc Hp Hd. split.
+  - intros Hm ->. unfold definition. rewrite Hf, Hc, Hp. cbn [negb]. rewrite Hd, Hm. reflexivity.
+  - intros Hm He. unfold definition. rewrite Hf, Hc, Hp. cbn [negb]. rewrite Hd, Hm, He. reflexivity.
+Qed.
+
+(* in a regular document the class-level chain above a method's table is the root table alone *)
+Lemma class_level_regular t mt : regular t -> In mt (method_tables_of false t) ->
+  class_level_t [mt; root_table_of false t] = [root_table_of false t].
+Proof.
+  intros Hr Hin. destruct (annotate_regular t Hr) as (h & _ & Ha). cbv zeta in Ha.
+  unfold method_tables_of, root_table_of in *. rewrite Ha in *. cbn [st_root st_done] in *.
+  apply in_map_iff in Hin as (m & <- & _). unfold mtab. cbn [class_level_t t_cls opt_str_eqb].
+  rewrite str_eqb_refl. reflexivity.
+Qed.
+
+Lemma class_chain_single e : e_parent e = None -> class_chain [e] (e_name e) = [root_table e].
+Proof.
+  intro Hp. unfold class_chain, lineage. cbn [length ancestors]. unfold find_entity. cbn [find].
+  unfold ci_eqb. rewrite str_eqb_refl, Hp. reflexivity.
+Qed.
+
+(* the all-declarations look-up on the root table and Scoping's search_all on [root_table e]
+   select the same declaration (same position), or both nothing *)
+Theorem deftree_member_refines t id : regular t ->
+  let e := entity_of_tree t in
+  let rt := root_table_of false t in
+  match search_all [root_table e] id with
+  | [] => lookup_all [rt] id = []
+  | [(c, y)] => exists a, lookup_all [rt] id = [(rt, a)] /\ cls_str rt = c /\ aview a = sview y /\
+                          same_decl rt (root_table e) a y
+  | _ => False
+  end.
+Proof.
+  intros Hr e rt. destruct (tables_from_tree t Hr) as (Hroot & _ & _). cbv zeta in Hroot. fold e rt in Hroot.
+  cbn [search_all lookup_all]. rewrite root_table_build in *.
+  pose proof (find_in_corr rt _ _ id Hroot) as F.
+  destruct (scope_find (build (e_name e) (htriples e ++ map mtriple (e_members e))) id) as [y|].
+  - destruct F as (a & Fa & Va & Da). cbn [app]. exists a. rewrite Fa. cbn [app]. repeat split; auto. apply Hroot.
+  - rewrite F. reflexivity.
+Qed.
+
+(* ---------- the corollary with Scoping's own entry point ---------- *)
+
+Lemma resolve_plain_single e me id : e_parent e = None -> e_uses e = [] -> find_method e (me_name me) = Some me ->
+  resolve_plain [e] (e_name e) (Some (me_name me)) id = option_map to_target (search_wparent (abs_chain e me) id).
+Proof.
+  intros Hp Hu Hm. unfold resolve_plain, search_w_class. rewrite (scope_chain_single e me Hp Hm).
+  destruct (search_wparent (abs_chain e me) id); [reflexivity|].
+  unfold uses_of, find_entity. cbn [find]. unfold ci_eqb. rewrite str_eqb_refl, Hu. reflexivity.
+Qed.
+
+Theorem deftree_plain_resolve t k mt id : regular t ->
+  nth_error (method_tables_of false t) k = Some mt ->
+  let e := entity_of_tree t in
+  e_parent e = None -> e_uses e = [] ->
+  exists me, nth_error (e_methods e) k = Some me /\
+    (find_method e (me_name me) = Some me ->
+     match resolve_plain [e] (e_name e) (Some (me_name me)) id with
+     | Some (c, tag) =>
+         exists T a y, lookup [mt; root_table_of false t] id = Some (T, a) /\ cls_str T = c /\ dtag y = tag /\
+           aview a = sview y /\
+           ((T = mt /\ same_decl mt (method_table e me) a y) \/
+            (T = root_table_of false t /\ find_in mt id = None /\ same_decl T (root_table e) a y))
+     | None => lookup [mt; root_table_of false t] id = None
+     end).
+Proof.
+  intros Hr Hk e Hp Hu. destruct (deftree_plain_refines t k mt id Hr Hk) as (me & Hme & H). fold e in Hme, H.
+  exists me. split; [exact Hme|]. intro Hfm. rewrite (resolve_plain_single e me id Hp Hu Hfm).
+  destruct (search_wparent (abs_chain e me) id) as [[c y]|]; cbn [option_map to_target fst snd]; [|exact H].
+  destruct H as (T & a & HL & Hc & Hv & Hd). exists T, a, y. auto.
+Qed.
+
+(* ---------- completion after `self.` ---------- *)
+
+Theorem compltree_after_self_refines t k mt : regular t ->
+  nth_error (method_tables_of false t) k = Some mt ->
+  let e := entity_of_tree t in
+  e_parent e = None ->
+  labels_rhs (class_level_t [mt; root_table_of false t]) = complete_after_dot [e] (e_name e).
+Proof.
+  intros Hr Hk e Hp. rewrite (class_level_regular t mt Hr (nth_error_In _ _ Hk)).
+  destruct (compltree_plain_refines t k mt Hr Hk) as (me & _ & _ & H). fold e in H.
+  unfold complete_after_dot. rewrite (class_chain_single e Hp). exact H.
+Qed.
